@@ -402,7 +402,7 @@ func (n *network) evQuit(u *netUser) {
 	u.quit = true
 	delete(n.v.nicks, u.nick)
 	if visible {
-		n.send(":"+u.src()+" QUIT"+[]string{" :gone", " :gone", "", " :"}[n.g.S.Choose(4)], names, true)
+		n.send(":"+u.src()+" QUIT"+[]string{" :gone", " :gone", "", " :", " :hub.sim leaf.sim", " :*.net *.split", " :Ping timeout: 240 seconds", " :Killed (oper (go away))"}[n.g.S.Choose(8)], names, true)
 	}
 }
 
@@ -705,6 +705,7 @@ func trackRun(e *Env) {
 	var c *client.Conn
 	ready := false
 	welcomeMark := 0 // lines the model had sent when it (last) sent a welcome
+	welcomeText := 0
 	// client lines: MODE/WHO queries are answered later, at random moments
 	var queries []string
 	clientLines := 0
@@ -737,7 +738,9 @@ func trackRun(e *Env) {
 				return
 			}
 			welcomeMark = len(net.sent)
-			l.SendLine(":irc.sim 001 " + net.me.nick + " :Welcome to the sim " + net.me.nick + "!sim@host.sim")
+			// (servers word the welcome differently: the client's full address at
+			// the end, the nick only, neither)
+			l.SendLine(":irc.sim 001 " + net.me.nick + " :" + []string{"Welcome to the sim " + net.me.nick + "!sim@host.sim", "Welcome to the Internet Relay Network " + net.me.nick, "Welcome to the sim"}[welcomeText])
 			ready = true
 			for {
 				ln, ok := l.RecvLine()
@@ -760,9 +763,10 @@ func trackRun(e *Env) {
 	// the server may welcome the client under another nick than it asked for:
 	// the welcome line is then a line that changes the tracker too
 	reqNick := "me"
-	if e.Prop == "C05" && g.Pct(35) {
+	if g.Pct(35) {
 		reqNick = "asked"
 	}
+	welcomeText = g.W(6, 2, 1)
 	co := ClientOpts{Nick: reqNick, Ident: "sim", Name: "Sim User", Flood: flood, Track: true}
 	if g.Pct(30) {
 		// an application's recovery hook that takes its time (it runs after every
